@@ -789,8 +789,8 @@ impl Expression {
                         let mut float_num: Option<f64> = None;
                         let peek = ps.peek::<0>()?;
                         if !('0'..='9').contains(&peek)
-                            && !('a'..='z').contains(&peek)
-                            && !('A'..='Z').contains(&peek)
+                            && !('a'..='f').contains(&peek)
+                            && !('A'..='F').contains(&peek)
                         {
                             ps.add_warning_at_current_position(
                                 ParseErrorKind::UnexpectedExpressionCharacter,
@@ -831,8 +831,8 @@ impl Expression {
                                 break;
                             }
                             if !('0'..='9').contains(&peek)
-                                && !('a'..='z').contains(&peek)
-                                && !('A'..='Z').contains(&peek)
+                                && !('a'..='f').contains(&peek)
+                                && !('A'..='F').contains(&peek)
                             {
                                 ps.add_warning_at_current_position(
                                     ParseErrorKind::UnexpectedExpressionCharacter,
